@@ -27,6 +27,10 @@ P = {
          'superposition (sum s_i^n)^(1/n) >= each part and monotone (power axioms); Zener drag never reverses/accelerates and freezes when strong enough (linear, pointwise); grain volume = 1 after normalisation (automatic sum linearity); '
          'strength history gains exactly one entry per host step; grain model solves once over exactly the host step after updating the drag; transport = C07 contract, inner solve = C05 contract.',
          'finiteness at zero radius/spacing, edge/screw constants (rounded), monotone mean grain size: undecided'),
+ 'C16': ('All tensors concrete-shaped, entries symbolic: 6x6 <-> rank-4 and vector <-> 3x3 round trips and minor symmetries; the quick 3x3 inverse is cofactor/det and inverts SYMMETRIC matrices, and its only call site (real sphInt) hands it a symmetric Christoffel matrix; '
+         'rotation of rank-2/rank-4 tensors equals the index formula R R R R C (polynomial normal form); every one of the 15 modulus pairs (incl. nu = 0) yields the compliance of the same isotropic material; isotropic sphere closed form 2G(1+nu)/(1-nu) eps^2 V, cube/size and square/eigenstrain scaling of the spherical energy, '
+         'degree-1 homogeneity of the ellipsoid radius function; rotation and stiffness may be supplied in either order; precipitate stiffness defaults to the CURRENT matrix stiffness.',
+         'Eshelby quadrature numerics (positivity, textbook components, rotation invariance of the energy, Bohm reduction, Lebedev exactness) undecided; (E,M) pair for nu >= 0 only'),
  'C19': ('testCondition of all six condition classes x both inequalities executed on a PrecipitateBase object with a symbolic history: reads the monitored value at pData.n of the model it is '
          'given, latch, interpolated crossing time within [t(n-1), t(n)] (NRA), reset; stop decision of PrecipitateBase.postProcess for every or/and mix of <= 3 conditions; solver-loop stop clause (C05); TTP calculator wiring.',
          'P, E <= 2; model sub-steps of postProcess are arbitrary callables'),
